@@ -71,6 +71,7 @@ R = [
  (r"xref\.go:Reader\.lastOccurence:slice:buf\[:pos-start\]", "guard: pos-start <= chunkSize = len(buf)"),
  (r"xref\.go:Reader\.lastOccurence:slice:buf\[:n\]", "io.ReaderAt contract: n <= len of the slice passed"),
  (r"xref\.go:Reader\.readXRef:index:", "map access"),
+ (r"xref\.go:Reader\.readXRef:loop:for$", "lemma C05rob.prevWalk_terminates: (after D-C05-3-4) the loop ends when the position of the first non-white-space byte at the offset has been seen before; seen grows by a new position in (0, size) in every other iteration (pigeonhole), and the bytes read as tables are bounded by the file size"),
  (r"xref\.go:Reader\.readXRef:loop:for !seen\[start\]", "lemma C05rob.prevWalk_terminates: seen grows by a new offset in (0, size) in every iteration (pigeonhole)"),
  (r"xref\.go:checkXRefStreamDict:index:ind\[", "guard: len(ind) is even and i < len(ind), so i+1 < len(ind)"),
  (r"xref\.go:(checkXRefStreamDict|decodeXRefStream):index:w\[[012]\]", "guard: len(W) == 3 is tested and w gets one entry per element of W"),
@@ -85,6 +86,7 @@ R = [
  (r"sequential\.go:FileInfo\.MakeReader:index:ID\[i\]", "guard: len(ID) >= 2 and i ranges over 2"),
  (r"sequential\.go:.*:index:(r\.unencrypted|fi\.objIndex|index|seen|xref)\[", "map access"),
  (r"sequential\.go:FileInfo\.doRead:panic:", "waiver: the marker regexp and ReadIndirectObject read the same digits at ObjStart (object number < maxXRefSize and generation <= 65535 are tested by locateObjects); reachable only if the bytes change between the two reads; a panic is reported by the C05 harness as C05-panic"),
+ (r"sequential\.go:FileInfo\.doRead:index:fi\.objStarts\[i\]", "guard: (after D-C05-5-10) i is the result of sort.Search and is used behind i < len(fi.objStarts) in the same if statement"),
  (r"sequential\.go:FileInfo\.getTrailer:index:fi\.Sections\[j\]", "guard: j counts down from len-1 to 0"),
  (r"sequential\.go:FileInfo\.locateObjects:index:m\[", "regexp contract: startRegexp has 1 group (m has 2 entries), markerRegexp has 3 groups (m has 4 entries)"),
  (r"sequential\.go:FileInfo\.locateObjects:loop:for$", "waiver: every iteration is one scanner.Find, which consumes at least the non-empty match or ends with io.EOF (see scanner.Find)"),
